@@ -46,6 +46,32 @@ def _concat_sides(f, e):
     return None
 
 
+def rule_geometry(ctx, R="C25.geometry"):
+    repo = ctx.repo
+    f = ctx.fn("block:BlockGeometry.sustain")
+    r = [s for s in f.node.body if isinstance(s, ast.Return)]
+    t = str(sym(r[0].value))
+    ctx.check(t == "BlockGeometry(self.num_trials*sustain_count, self.preamble_size*sustain_count, {_b0: _b1*sustain_count for (_b0, _b1) in self.factor_to_sustain_count.items()})",
+              R, f, "sustain()", "trial count, preamble and per-factor counts all scale", "BlockGeometry.sustain is `%s`" % t)
+    base = repo.cls("base_constraint:Constraint")
+    fam = base.all_subclasses()
+    for c in fam:
+        if "init_within_block" in c.methods:
+            own = c.methods["init_within_block"]
+            captures = any(isinstance(s, ast.Assign) and dotted(s.targets[0]) == "self.within_block" for s in statements(own.node))
+            if not captures:
+                ctx.ok(R, own, "%s.init_within_block delegates" % c.name, trivial=True)
+                continue
+            sw_ = c.lookup("sustain_within_block")
+            ok = sw_ is not None and sw_.cls is not base and any(
+                isinstance(s, ast.Assign) and dotted(s.targets[0]) == "self.within_block" and
+                ast.unparse(s.value) == "self.within_block.sustain(sustain_count)" for s in statements(sw_.node))
+            ctx.check(ok, R, c, "%s scales captured geometry" % c.name,
+                      "%s captures geometry and scales it in sustain_within_block" % c.name,
+                      "%s captures the block geometry in init_within_block but its sustain_within_block does not scale it "
+                      "(self.within_block = self.within_block.sustain(sustain_count))" % c.fq)
+
+
 def check(ctx):
     repo = ctx.repo
     nest = ctx.fn("cross_block:Nest.__init__")
@@ -168,30 +194,7 @@ def check(ctx):
               "self.factor_to_sustain_count[f] = count" in ast.unparse(t[0]), R, bi, "factor_to_sustain_count",
               "each crossed factor gets its crossing's sustain count", "factor_to_sustain_count construction changed")
 
-    # ---- geometry
-    R = "C25.geometry"
-    f = ctx.fn("block:BlockGeometry.sustain")
-    r = [s for s in f.node.body if isinstance(s, ast.Return)]
-    t = str(sym(r[0].value))
-    ctx.check(t == "BlockGeometry(self.num_trials*sustain_count, self.preamble_size*sustain_count, {_b0: _b1*sustain_count for (_b0, _b1) in self.factor_to_sustain_count.items()})",
-              R, f, "sustain()", "trial count, preamble and per-factor counts all scale", "BlockGeometry.sustain is `%s`" % t)
-    base = repo.cls("base_constraint:Constraint")
-    fam = base.all_subclasses()
-    for c in fam:
-        if "init_within_block" in c.methods:
-            own = c.methods["init_within_block"]
-            captures = any(isinstance(s, ast.Assign) and dotted(s.targets[0]) == "self.within_block" for s in statements(own.node))
-            if not captures:
-                ctx.ok(R, own, "%s.init_within_block delegates" % c.name, trivial=True)
-                continue
-            sw_ = c.lookup("sustain_within_block")
-            ok = sw_ is not None and sw_.cls is not base and any(
-                isinstance(s, ast.Assign) and dotted(s.targets[0]) == "self.within_block" and
-                ast.unparse(s.value) == "self.within_block.sustain(sustain_count)" for s in statements(sw_.node))
-            ctx.check(ok, R, c, "%s scales captured geometry" % c.name,
-                      "%s captures geometry and scales it in sustain_within_block" % c.name,
-                      "%s captures the block geometry in init_within_block but its sustain_within_block does not scale it "
-                      "(self.within_block = self.within_block.sustain(sustain_count))" % c.fq)
+    rule_geometry(ctx)
     # declared within_block must be assigned by some init_within_block, unless the class is whole-sequence scoped (C26)
     # ---- sibling rule on trial-valued parameters
     R = "C25.trial-valued"
@@ -230,6 +233,11 @@ def check(ctx):
               "get_trial_numbers no longer scales the pinned index by the sustain count")
 
     C07.pair_sustain(ctx, R="C25.pair")
+    # "its length is the outer trial count times the inner trial count": the trial-count arithmetic (where the sustain
+    # multiplier enters crossing_size, and nowhere else) is C16's formula clause, under its own rule names
+    if not ctx.is_control:
+        from ..report import include
+        include(ctx, "C16")
 
     mod = sys.modules[__name__]
     control(ctx, mod, "swap the operands of the weights concatenation in Nest",
